@@ -404,7 +404,11 @@ DoReExpand(s) ==
               !.pc = "return"]
 
 (* -------------------------------- Return ------------------------------- *)
-(* ConeCyl.lb stacks `pos` zero rows (the num0 amplitudes cut off before solving) on top *)
+(* ConeCyl.lb stacks `pos` zero rows (the num0 amplitudes cut off before solving) on top.
+   ConeCyl.lb / ConeCyl.eigen with combined_load_case c are this same instance on the pencil their docstring
+   states: K = k0 (c = None), k0 + kG0_T (1: fixed torsion), k0 + kG0_P (2: fixed pressure), k0 + kG0_Fc
+   (3: fixed axial load);  B = kG0, kG0_Fc, kG0_Fc, kG0_T.  The harness forms that pencil from the parts the
+   object holds after the call; a call that solved another pencil fails the value / residual clauses. *)
 DoReturn(s) ==
     LET q == s.o.pos
     IN [s EXCEPT !.vec = IF q = 0 THEN s.vec
